@@ -9,7 +9,7 @@ import (
 
 // Run is the C09 monitor: function level on the real keeper plus history level on real chains.
 func Run(run *vh.Run) {
-	rep := &reporter{run: run, n: map[string]int{}, max: 3}
+	rep := &reporter{run: run, n: map[string]int{}, max: 2}
 	workers := runtime.NumCPU()
 	if workers > 16 {
 		workers = 16
@@ -18,11 +18,12 @@ func Run(run *vh.Run) {
 		workers = 2
 	}
 	nPoints := run.N(5000, 1_000_000)
-	nBlocks := run.N(60, 300)
-	nWorlds := 1
+	nBlocks := run.N(60, 500)
+	nWorlds := 2
 	if run.Thorough() {
-		nWorlds = 3
+		nWorlds = 6
 	}
+	nBursts := run.N(18, 120) // two-block chains whose block 1 runs under the genesis base fee
 	fnWorkers := workers
 	if !run.Thorough() && fnWorkers > 5 {
 		fnWorkers = 5
@@ -53,6 +54,22 @@ func Run(run *vh.Run) {
 			}(v, wi)
 		}
 	}
+	gi := 0
+	for gi < nBursts {
+		for _, v := range histVariants() {
+			if !v.Genesis || gi >= nBursts {
+				continue
+			}
+			wg.Add(1)
+			go func(v histVariant, wi int) {
+				defer wg.Done()
+				sem <- struct{}{}
+				defer func() { <-sem }()
+				runHistory(run, rep, v, wi, 2)
+			}(v, 1000+gi)
+			gi++
+		}
+	}
 	wg.Wait()
 
 	run.Set("hist_variants", variants)
@@ -81,7 +98,8 @@ func Run(run *vh.Run) {
 	run.Floor("function points where the at-least-1 rule decides", run.Get("fn_boundary_plus_one_rule"), int64(nPoints)/100)
 	run.Floor("function points with a zero gas target and usage > 0", run.Get("fn_zero_target_with_usage"), int64(nPoints)/100)
 	run.Floor("function points with base fee >= 2^63", run.Get("fn_base_fee_ge_2^63"), int64(nPoints)/10)
-	run.Floor("function-level MaxGas classes", int64(run.DistinctN("fn_maxgas_class")), 12)
+	run.Floor("function-level MaxGas classes", int64(run.DistinctN("fn_maxgas_class")), 10)
+	run.Floor("distinct non-trivial (level, MaxGas class, usage, base-fee class, min-price relation) keys", int64(run.DistinctN("nontrivial_keys")), 800)
 	full := 0 // variants whose chains ran at least half of the requested blocks
 	for _, v := range histVariants() {
 		if run.Get("hist_blocks["+v.Name+"]") >= int64(nBlocks*nWorlds)/2 {
@@ -95,6 +113,8 @@ func Run(run *vh.Run) {
 	run.Floor("history blocks above target", run.Get("hist_usage_above")+run.Get("hist_usage_limit")+run.Get("hist_usage_over-limit")+run.Get("hist_usage_target+1"), int64(nWorlds*nBlocks)/2)
 	run.Floor("history blocks where the min-price clamp decides", run.Get("hist_blocks_min_price_clamps"), int64(nWorlds*nBlocks)/10)
 	run.Floor("under-priced transactions refused", run.Get("hist_tx_rejected_below-base-fee")+run.Get("hist_tx_rejected_below-min-gas-price"), int64(nWorlds*nBlocks))
+	run.Floor("transactions refused for a price between the base fee and floor(min gas price)", run.Get("hist_tx_rejected_below-min-gas-price"), int64(nBursts))
+	run.Floor("blocks run while the base fee was below floor(min gas price)", run.Get("hist_blocks_base_fee_below_global_min"), int64(nBursts)/2)
 	run.Floor("transactions admitted exactly at the bound", run.Get("hist_tx_admitted_equal"), int64(nWorlds*nBlocks)/2)
 	run.Floor("transactions admitted above the bound", run.Get("hist_tx_admitted_above"), int64(nWorlds*nBlocks))
 }
